@@ -8,6 +8,7 @@ EXPLANATION = ("Props/C03.v characterises serve(kind, table, allow, request) = D
                "multistream handler registration and muxHandler with recording channels and compares dials and refusals.")
 TRUSTED = ["go-multistream exact-match negotiation and smux are exercised, not modelled",
            "http endpoints: per-path Filter is the same function; the websocket path router is not exercised by this check"]
+SHARDS = 4      # harness processes side by side (cases are independent)
 RUN_TIMEOUT = 1500
 
 BASE = [b"ssh", b"web", b"db", b"a/b", b"SSH", b"s", b"x_1"]
